@@ -36,6 +36,8 @@ type detCase struct {
 	Single     bool       `json:"single"` // additionally lint every arg alone with a fresh Linter (C10)
 	Reuse      bool       `json:"reuse"`  // one Linter instance for all repetitions (history of earlier runs)
 	Format     string     `json:"format"` // -format template ("" = default output); the rendered text is compared in every run
+	Chdirs     []string   `json:"chdirs"` // process working directories (relative to the temp root) cycled over the repetitions;
+	// the result must depend on LinterOptions.WorkingDir only, never on the working directory of the process
 }
 
 type fileDiag struct {
@@ -191,9 +193,20 @@ func runDetCase(c detCase) (res detResult) {
 	defer runtime.GOMAXPROCS(old)
 	var shared *actionlint.Linter
 	var sharedBuf, buf0 bytes.Buffer
+	if len(c.Chdirs) > 0 {
+		if wd, err := os.Getwd(); err == nil {
+			defer os.Chdir(wd)
+		}
+	}
 	for rep := 0; rep < c.Reps; rep++ {
 		p := procs[rep%len(procs)]
 		runtime.GOMAXPROCS(p)
+		if len(c.Chdirs) > 0 {
+			if err := os.Chdir(filepath.Join(root, c.Chdirs[rep%len(c.Chdirs)])); err != nil {
+				res.Panic = "chdir: " + err.Error()
+				return
+			}
+		}
 		var l *actionlint.Linter
 		var err error
 		if c.Reuse {
